@@ -7,7 +7,7 @@ EXTENDS ClusterAPI, Json, IOUtils
 
 Recs == ndJsonDeserialize(IOEnv.TRACE_FILE)
 
-ObsOf(r) == [ok |-> r.obs.ok, ps2 |-> Range(r.obs.ps2), ret |-> r.obs.ret, log |-> r.obs.log, failed |-> r.obs.failed]
+ObsOf(r) == [ok |-> r.obs.ok, ps2 |-> Range(r.obs.ps2), ret |-> r.obs.ret, log |-> r.obs.log, failed |-> r.obs.failed, win |-> r.obs.win]
 Bad   == {i \in 1..Len(Recs) : ~EffectOK(Recs[i].env, Range(Recs[i].ps), Recs[i].call, ObsOf(Recs[i]))}
 Drift == {i \in 1..Len(Recs) : ~StepOK(Recs[i].env, Range(Recs[i].ps), Recs[i].call, ObsOf(Recs[i]))}
 
